@@ -4,6 +4,7 @@ from common import *
 import e2, mirdump
 from e2 import *
 from mirsym import models as MD
+from props import dial
 
 PROP = 'C10'
 
@@ -254,6 +255,31 @@ def ob_known_get(report):
                    ['KnownPeers::get'], {'inline_depth': 4}, body)
 
 
+def ob_known_insert(report):
+    def body(ob):
+        ex = e2.executor('anemo', max_depth=4)
+        fn = find_method(ex.prog, 'KnownPeers', 'insert')
+        pf = struct_fields('crates/anemo/src/types/mod.rs', 'PeerInfo')
+        info = struct_sym('info', 'types::PeerInfo', pf, {'peer_id': z3.BitVec('info.peer_id', 256)})
+        res = ex.run(fn, [Ptr(('H', 'kp', 'KnownPeers')), info])
+        n = 0
+        for r in res:
+            if r.tag == 'panic':
+                continue
+            ins = [e for e in r.events if e.kind == 'map']
+            if r.tag != 'return' or len(ins) != 1 or ins[0].name != 'insert' or str(ins[0].args[1]) != 'info.peer_id' or vname(ins[0].args[2]) != 'info':
+                o = ob.done([ex], 'violated', 'KnownPeers::insert(info) does not store exactly `info` under info.peer_id (affinity/addresses of a re-inserted peer would be stale)',
+                            path_summary(r), key='known-insert', paths=len(res))
+                o.replay = write_replay(PROP, 'known-insert', path_summary(r))
+                return o
+            n += 1
+        if not n:
+            return ob.done([ex], 'inconclusive', 'no normal path', paths=len(res))
+        ob.done([ex], 'held', '', {'paths': len(res)}, paths=len(res))
+    return guarded(report, 'known_peers_insert_replaces', 'KnownPeers::insert(info): the table maps info.peer_id to exactly `info` afterwards (re-inserting a peer replaces its affinity)',
+                   ['KnownPeers::insert'], {'inline_depth': 4}, body)
+
+
 def check(report, tier, only=None):
     report.trusted += ['z3 5.1 (python API)', 'rustc 1.97-nightly MIR dump of the scratch copy of /repo',
                        'contract models: Future::poll of `Connecting` = symbolic Poll<Result<Connection>>; HashMap::{get,len}; RwLock::read returns the guarded value; tracing disabled']
@@ -261,9 +287,9 @@ def check(report, tier, only=None):
                        'TLS identity of the connection (C01)']
     report.assumptions += ['KnownPeers::get, Config::max_concurrent_connections, ActivePeers::len are the interface points of the admission block; '
                            'each is checked separately (known_peers_get_is_map_lookup, len_counts_every_connection) or is a plain field read']
-    obs = [ob_admission, ob_len_is_all_connections, ob_dials_not_limited, ob_known_get]
+    obs = [ob_admission, ob_len_is_all_connections, ob_dials_not_limited, ob_known_get, ob_known_insert, lambda rep: dial.ob_dial_task(rep, PROP)]
     for f in obs:
-        if only and not any(s in f.__name__ for s in only):
+        if only and not any(s in getattr(f, '__name__', 'dial') for s in only):
             continue
         f(report)
     report.extra['mir_sha'] = mirdump.mir_sha('anemo')
